@@ -324,10 +324,12 @@ class HTTPConnectionPool(ConnectionPool, RequestMethods):
                         "Pool reached maximum size and no more connections are allowed.",
                     ) from None
 
+                # A concurrent close() may have set self.pool to None by now.
+                pool = self.pool
                 log.warning(
                     "Connection pool is full, discarding connection: %s. Connection pool size: %s",
                     self.host,
-                    self.pool.qsize(),
+                    pool.qsize() if pool is not None else 0,
                 )
 
         # Connection never got put back into the pool, close it.
